@@ -34,14 +34,17 @@ pub fn registry() -> Vec<(&'static str, fn(&mut crate::src::ReplaySrc))> {
     v
 }
 
-/// Native-only bounded harnesses (small-scope enumeration; CBMC cannot handle the heap-heavy schema code).
-/// name, body, properties, functions, bound  -- parsed by tools/native_run.py from the `n(` lines below.
+// Native-only bounded harnesses (small-scope enumeration; CBMC cannot handle the heap-heavy schema code).
+// name, body, properties, functions, bound  -- parsed by tools/native_run.py from the `n(` lines below.
+#[cfg(not(kani))]
 include!("native_family.rs");
+#[cfg(not(kani))]
 pub fn native_registry() -> Vec<(&'static str, fn(&mut crate::src::EnumSrc))> {
     let mut v = native_family_registry();
     v.extend(native_misc_registry());
     v
 }
+#[cfg(not(kani))]
 fn native_misc_registry() -> Vec<(&'static str, fn(&mut crate::src::EnumSrc))> {
     vec![
         // n(nschema_library, "C12", "hand-written WithSchema impls: Vec, tuples, Option, arrays, Box, String, BTreeMap, BTreeSet, VecDeque, Duration", "small-scope values");
